@@ -4,8 +4,8 @@ import re
 PROP = "C15"
 ENGINE = "xmltok"
 USES_TRANSLATOR = True
-LEAN_TARGETS = ["H5V.Props.C15", "H5V.Props.C15Run"]
-AUDIT_IMPORTS = ["H5V.Props.C15Run"]
+LEAN_TARGETS = ["H5V.Props.C15", "H5V.Props.C15Run", "H5V.Props.C15Clean", "H5V.Props.C15Tree"]
+AUDIT_IMPORTS = ["H5V.Props.C15Run", "H5V.Props.C15Clean", "H5V.Props.C15Tree"]
 THEOREMS = ["H5V.Props.C15." + t for t in [
     "xmlTokSets_match", "C15_sets_cover", "C15_fast_eq_slow",
     "C15_step_mono", "C15_step_resume", "C15_step_good", "C15_step_sim",
@@ -14,6 +14,13 @@ THEOREMS = ["H5V.Props.C15." + t for t in [
     # whole-run independence of exact_errors (Props/C15Run.lean)
     "E_iff", "C15_step_optE", "C15_run_optE", "C15_feed_optE", "C15_finish_optE", "C15_session_optE",
     "C15_exact_errors_tokens", "C15_exact_errors_on_off",
+    # no raw CR / NUL reaches the sink (Props/C15Clean.lean)
+    "C15_preprocessed", "C15_get_char_clean", "C15_fast_path_clean", "C15_ref_no_nul", "C15_initial_clean", "C15_step_clean",
+    "C15_run_clean", "C15_feed_clean", "C15_finish_clean", "C15_session_clean", "C15_no_raw_cr_nul", "C15_clean_no_refs",
+    "C15_step_provenance", "C15_ref_can_deliver_cr",
+    # the XML tree-builder model is insensitive to how text is cut into character tokens (Props/C15Tree.lean)
+    "C15_tb_char_split", "C15_tb_sim_step", "C15_tb_errors_write_only", "C15_tree_resplit", "C15_tree_obs",
+    "C15_tree_same_document", "C15_resplit_of_merge_eq", "C15_tree_merge_obs", "C15_tree_error_count_depends_on_cut",
 ]] + ["H5V.Model.XmlTok." + t for t in [
     "step_mono", "step_resume", "step_good", "step_sim", "runsTo_chunk", "session_flatten", "step_discardBom",
     "setOf_cover", "transSet_dead",
